@@ -61,6 +61,25 @@ pub open spec fn inv14(c: AdaptiveFeeConstants, v: AdaptiveFeeVariables) -> bool
     && -GROUP_BOUND() <= v.tick_group_index_reference <= GROUP_BOUND()
 }
 
+/// the documented filter / decay / reset rules of the reference update, as a function (None = InvalidTimestamp)
+pub open spec fn reference_after(o: AdaptiveFeeVariables, tick_group_index: i32, current_timestamp: u64, c: AdaptiveFeeConstants) -> Option<AdaptiveFeeVariables> {
+    let max_ts = max_i(o.last_reference_update_timestamp as int, o.last_major_swap_timestamp as int);
+    let now = current_timestamp as int;
+    if now < max_ts { None }
+    else if now - o.last_reference_update_timestamp as int > 3_600 {
+        Some(AdaptiveFeeVariables { tick_group_index_reference: tick_group_index, volatility_reference: 0, last_reference_update_timestamp: current_timestamp, ..o })
+    } else if now - max_ts < c.filter_period as int { Some(o) }
+    else if now - max_ts < c.decay_period as int {
+        Some(AdaptiveFeeVariables { tick_group_index_reference: tick_group_index,
+            volatility_reference: ((o.volatility_accumulator as int * c.reduction_factor as int) / 10_000) as u32, last_reference_update_timestamp: current_timestamp, ..o })
+    } else {
+        Some(AdaptiveFeeVariables { tick_group_index_reference: tick_group_index, volatility_reference: 0, last_reference_update_timestamp: current_timestamp, ..o })
+    }
+}
+/// accumulator of tick group g: min(reference + |distance| * 10_000, max)
+pub open spec fn accumulator_at(v: AdaptiveFeeVariables, g: int, c: AdaptiveFeeConstants) -> int {
+    min_i(v.volatility_reference as int + abs_diff(v.tick_group_index_reference as int, g) * 10_000, c.max_volatility_accumulator as int)
+}
 impl AdaptiveFeeVariables {
 //@ fn state/oracle.rs update_volatility_accumulator in=/^impl AdaptiveFeeVariables \{/ -> r
     requires -GROUP_BOUND() <= tick_group_index <= GROUP_BOUND(), -GROUP_BOUND() <= old(self).tick_group_index_reference <= GROUP_BOUND(),
@@ -74,7 +93,12 @@ impl AdaptiveFeeVariables {
 
 //@ fn state/oracle.rs update_reference in=/^impl AdaptiveFeeVariables \{/ -> r
     requires adaptive_fee_constants.reduction_factor < 10_000,
-    ensures ({
+    ensures
+        match reference_after(*old(self), tick_group_index, current_timestamp, *adaptive_fee_constants) {
+            None => r == err::<()>(ErrorCode::InvalidTimestamp) && *final(self) == *old(self),
+            Some(n) => r is Ok && *final(self) == n && n.volatility_reference as int <= max_i(old(self).volatility_accumulator as int, old(self).volatility_reference as int),
+        },
+      ({
         let o = *old(self); let n = *final(self);
         let max_ts = max_i(o.last_reference_update_timestamp as int, o.last_major_swap_timestamp as int);
         let now = current_timestamp as int;
